@@ -612,8 +612,37 @@ def conjuncts(test: ast.AST, truth: bool) -> list[tuple[str, bool]]:
         for v in test.values:
             out += conjuncts(v, truth)
         return out
+    simp = _none_test_of_conditional(test)
+    if simp is not None:
+        return conjuncts(simp[0], truth == simp[1])
     t, pol = cond(test)
     return [(t, pol == truth)]
+
+
+def _never_none(e: ast.AST) -> bool:
+    if isinstance(e, ast.Constant):
+        return e.value is not None
+    if isinstance(e, (ast.BinOp, ast.JoinedStr, ast.Tuple, ast.List, ast.Dict, ast.Set, ast.ListComp, ast.DictComp, ast.SetComp, ast.Lambda)):
+        return True
+    return isinstance(e, ast.Call) and isinstance(e.func, ast.Name) and e.func.id[:1].isupper()
+
+
+def _none_test_of_conditional(test: ast.AST) -> tuple[ast.AST, bool] | None:
+    """`(None if c else e) is None` with `e` an expression that cannot be None (an arithmetic/path expression, a literal, a
+    constructor call) says `c`; returns (c, polarity) - the test is equivalent to `c` when polarity is True, to `not c` otherwise."""
+    if not (isinstance(test, ast.Compare) and len(test.ops) == 1 and isinstance(test.ops[0], (ast.Is, ast.IsNot))
+            and isinstance(test.comparators[0], ast.Constant) and test.comparators[0].value is None and isinstance(test.left, ast.IfExp)):
+        return None
+    ie = test.left
+    none_body = isinstance(ie.body, ast.Constant) and ie.body.value is None
+    none_else = isinstance(ie.orelse, ast.Constant) and ie.orelse.value is None
+    if none_body and _never_none(ie.orelse):
+        pol = True
+    elif none_else and _never_none(ie.body):
+        pol = False
+    else:
+        return None
+    return ie.test, pol == isinstance(test.ops[0], ast.Is)
 
 
 def guard_facts(cfg, defs: Defs, node: int) -> list[tuple[str, bool]]:
@@ -1232,6 +1261,35 @@ def reaching_value(cfg, name: str, use: int) -> ast.AST | None:
                 return None
             found = val
     return found
+
+
+def reaching_values(cfg, name: str, use: int) -> list[tuple[int, ast.AST]] | None:
+    """(node, right-hand side) of every plain assignment `name = <expr>` that can be the binding `name` has at CFG node `use`
+    (the use is reachable from it without passing another binding of `name`).  None when a binding that is not a plain assignment
+    (loop variable, augmented assignment, with-target, ...) can reach the use."""
+    from .cfg import header_parts
+
+    stores: dict[int, ast.AST | None] = {}
+    for n in cfg.nodes():
+        st = cfg.stmt[n]
+        if not any(isinstance(x, ast.Name) and x.id == name and isinstance(x.ctx, (ast.Store, ast.Del)) for part in header_parts(st) if part is not None for x in ast.walk(part)):
+            continue
+        plain = None
+        if isinstance(st, ast.Assign) and len(st.targets) == 1 and isinstance(st.targets[0], ast.Name) and st.targets[0].id == name:
+            plain = st.value
+        elif isinstance(st, ast.AnnAssign) and isinstance(st.target, ast.Name) and st.target.id == name and st.value is not None:
+            plain = st.value
+        stores[n] = plain
+    out: list[tuple[int, ast.AST]] = []
+    for a, val in stores.items():
+        if a == use:
+            continue
+        others = set(stores) - {a, use}
+        if use in cfg.reachable_from(a, without=others):
+            if val is None:
+                return None
+            out.append((a, val))
+    return out
 
 
 def subclass_missing_attrs(prog, base_q: str, sub_q: str) -> dict[str, list[tuple[FuncInfo, ast.Attribute]]]:
